@@ -19,7 +19,7 @@ import (
 	"verif/harness/stats"
 )
 
-const ruleC16a = "Session: rapid-generated writer shape (Flusher | FlushError | both | none, wrapped 0..3 times behind Unwrap) x 1..8 operations Send(message)/Flush (12% of the messages carry a data line of 512..70000 bytes) x fault plan (k-th underlying Write fails after accepting a prefix; j-th underlying flush fails where the shape can report it); an ordered log of Header/Write/flush calls is checked: upgrade refused iff no flushing writer is reachable; no body byte before a successful flush with Content-Type text/event-stream in the header; the header is not re-assigned after that (a tampered value must survive); body == concatenation of the reference encodings (a prefix for the failing Send); Flush()==nil implies every byte written is covered by a successful flush; every operation returns exactly the first underlying error it caused, else nil. Non-trivial: >= 2 Sends with a Flush between them and a fault at an operation index >= 1."
+const ruleC16a = "Session: rapid-generated writer shape (Flusher | FlushError | both | none, wrapped 0..3 times behind Unwrap) x 1..8 operations Send(message)/Flush (12% of the messages carry a data line of 512..70000 bytes) x fault plan (k-th underlying Write fails after accepting a prefix; j-th underlying flush fails where the shape can report it; 35% of the failures are net.Errors with Timeout() true, as an expired write deadline gives); an ordered log of Header/Write/flush calls is checked: upgrade refused iff no flushing writer is reachable; no body byte before a successful flush with Content-Type text/event-stream in the header; the header is not re-assigned after that (a tampered value must survive); body == concatenation of the reference encodings (a prefix for the failing Send); Flush()==nil implies every byte written is covered by a successful flush; every operation returns exactly the first underlying error it caused, else nil. Non-trivial: >= 2 Sends with a Flush between them and a fault at an operation index >= 1."
 const ruleC16b = "Server: rapid-generated Last-Event-Id header values (absent, empty, valid, with CR/LF, several values) x OnSession (nil | accept with 0..3 topics | reject after writing a status/body or nothing) x provider stub (records the Subscription, sends 0..3 messages through it, returns nil or an error before/after sending) x writer shape x Server.Logger (unset | returning nil | a real slog logger); Subscription fields, rejection silence and the 500 answers are checked against the statement. Non-trivial: the header value is non-trivial (present, not a plain token) and OnSession is set. Distinct: FNV-64 of the JSON of the case."
 
 type SessOp struct {
@@ -89,6 +89,7 @@ type C16Case struct {
 	FailWrite int      `json:"failwrite"`
 	AcceptPct int      `json:"acceptpct"`
 	FailFlush int      `json:"failflush"`
+	Timeouts  bool     `json:"timeouts,omitempty"` // the injected failures are net.Errors with Timeout() true (an expired write deadline)
 }
 
 var genShape = rapid.Custom(func(t *rapid.T) Shape {
@@ -118,12 +119,14 @@ func genC16(t *rapid.T) C16Case {
 		c.AcceptPct = stats.Pct(t, "accept")
 		c.FailFlush = stats.Pick(t, 6, "failflush")
 	}
+	c.Timeouts = (c.FailWrite >= 0 || c.FailFlush >= 0) && stats.Pct(t, "timeouts") < 35
 	return c
 }
 
 func checkC16(t *testing.T, c C16Case) *stats.Verdict {
 	v := &stats.Verdict{Size: len(c.Ops)}
 	co := newCore(c.FailWrite, c.AcceptPct, c.FailFlush)
+	co.timeoutErrs = c.Timeouts
 	w := c.Shape.build(co)
 	v.Class(fmt.Sprintf("shape:%s/depth%d", c.Shape.Base, c.Shape.Depth))
 	sess, err := sse.Upgrade(w, httptest.NewRequest(http.MethodGet, "/", nil))
@@ -261,6 +264,7 @@ type C16SrvCase struct {
 	ProvErr         string    `json:"proverr"` // none | before | after
 	CancelFirst     bool      `json:"cancelfirst,omitempty"`
 	FirstFlushFails bool      `json:"firstflushfails,omitempty"` // the writer's very first flush fails (shapes that can report it)
+	Timeouts        bool      `json:"timeouts,omitempty"`        // the failing flush reports a net.Error with Timeout() true
 	Logger          string    `json:"logger,omitempty"`          // "" no Logger | nil: Logger returns nil | slog: Logger returns a real logger (writing to a buffer of its own)
 }
 
@@ -290,6 +294,7 @@ func genC16Srv(t *rapid.T) C16SrvCase {
 	c.ProvSend = stats.Pick(t, 4, "provsend")
 	c.ProvErr = stats.From(t, []string{"none", "none", "before", "after"}, "proverr")
 	c.FirstFlushFails = stats.Pct(t, "firstflushfails") >= 80
+	c.Timeouts = c.FirstFlushFails && stats.Pct(t, "timeouts") < 35
 	c.Logger = stats.From(t, []string{"", "", "", "nil", "slog", "slog"}, "logger")
 	return c
 }
@@ -337,6 +342,7 @@ func checkC16Srv(t *testing.T, c C16SrvCase) *stats.Verdict {
 	if c.FirstFlushFails && c.Shape.canFailFlush() {
 		co.failFlush = 0
 	}
+	co.timeoutErrs = c.Timeouts
 	w := c.Shape.build(co)
 	req := httptest.NewRequest(http.MethodGet, "/events", nil)
 	if c.HasHeader {
